@@ -115,15 +115,16 @@ theorem c01_partial : C01_for tr := by
   obtain ⟨w, hw⟩ := tr_no_runtime_error km g q st ps hok h _ hm
   cases hw
 
-/-! ### stage S2a: one directed fixed hop — `tr2` = S1 ∪ S2a -/
+/-! ### stage S2: one directed fixed hop with WHERE — `tr2F flipOf` = S1 ∪ S2, for every join-order choice `flipOf` -/
 
-/-- bag agreement: the SQL rows are a permutation of the Cypher rows (stage S2a has no ORDER BY; S1's equality implies it) -/
+/-- bag agreement: the SQL rows are a permutation of the Cypher rows (stage S2 has no ORDER BY; S1's equality implies it) -/
 def AgreeBag (km : KindMap) (g : Graph) (t : Table) (r : List String × List (List Cy.CVal)) : Prop := (sqlRows t).Perm (cyRows g km r)
 
-/-- `tr2` answers only inside S1 ∪ S2a -/
-theorem tr2_some (km : KindMap) (q : Cy.Query) (st : Stmt) (ps : List (String × Val)) (h : tr2 km q = some (st, ps)) :
-    tr km q = some (st, ps) ∨ (∃ s : S2.Query, ofCy2 q = some s ∧ s.toCy = q ∧ s.tr km = some st ∧ ps = []) := by
-  unfold tr2 at h
+/-- `tr2F` answers only inside S1 ∪ S2: with the S1 statement, or with the hop statement in the join order `flipOf` picked -/
+theorem tr2_some (flipOf : S2.Query → Bool) (km : KindMap) (q : Cy.Query) (st : Stmt) (ps : List (String × Val))
+    (h : tr2F flipOf km q = some (st, ps)) :
+    tr km q = some (st, ps) ∨ (∃ s : S2.Query, ofCy2 q = some s ∧ s.toCy = q ∧ s.trWith km (flipOf s) = some st ∧ ps = []) := by
+  unfold tr2F at h
   cases h1 : tr km q with
   | some r => rw [h1] at h; cases h; exact Or.inl rfl
   | none =>
@@ -137,40 +138,66 @@ theorem tr2_some (km : KindMap) (q : Cy.Query) (st : Stmt) (ps : List (String ×
       cases heq
       exact Or.inr ⟨s, rfl, ofCy2_sound q s ho, hst, rfl⟩
 
-/-- `tr_sound_S2`: for every graph satisfying `GraphOK2` (GraphOK + unique relationship ids + known relationship kinds) and every query on
-which the model translator answers (stage S1 or S2a): whenever the emitted statement evaluates, the reference semantics yields a result and
-the SQL rows are a permutation of its rows (equal lists for S1) -/
-theorem tr_sound_S2 (km : KindMap) (g : Graph) (q : Cy.Query) (st : Stmt) (ps : List (String × Val)) (hok : GraphOK2 km g)
-    (h : tr2 km q = some (st, ps)) (t : Table) (ht : Sql.eval (encode km g) st ps = .ok t) :
+/-- `tr_sound_S2`: for every graph satisfying `GraphOK2` (GraphOK + unique relationship ids + known relationship kinds + no relationship
+property stored as JSON null), every join-order choice and every query on which the model translator answers (stage S1 or S2): whenever
+the emitted statement evaluates, the reference semantics yields a result and the SQL rows are a permutation of its rows (equal lists for S1) -/
+theorem tr_sound_S2 (flipOf : S2.Query → Bool) (km : KindMap) (g : Graph) (q : Cy.Query) (st : Stmt) (ps : List (String × Val))
+    (hok : GraphOK2 km g) (h : tr2F flipOf km q = some (st, ps)) (t : Table) (ht : Sql.eval (encode km g) st ps = .ok t) :
     ∃ r, Cy.eval .none g q = .ok r ∧ AgreeBag km g t r := by
-  rcases tr2_some km q st ps h with h1 | ⟨s, _, hq, hst, hps⟩
+  rcases tr2_some flipOf km q st ps h with h1 | ⟨s, _, hq, hst, hps⟩
   · obtain ⟨r, hr, hag⟩ := tr_sound_S1 km g q st ps hok.toGraphOK h1 t ht
     exact ⟨r, hr, by unfold AgreeBag; rw [show sqlRows t = cyRows g km r from hag]⟩
   · subst hps hq
-    obtain ⟨r, t', hr, ht', hperm⟩ := s2_total km g hok s st hst
-    rw [ht'] at ht; cases ht
-    exact ⟨r, hr, hperm⟩
+    obtain ⟨r, names, rows, hr, hsql, hperm⟩ := s2_sound km g hok s (flipOf s) st hst
+    rcases hsql with hsql | ⟨w, hsql⟩
+    · rw [hsql] at ht; cases ht
+      exact ⟨r, hr, hperm⟩
+    · rw [hsql] at ht; cases ht
 
-/-- on S2a the emitted statement always evaluates in the model (no error of any class); on S1 see `tr_no_runtime_error` -/
-theorem tr2_no_runtime_error (km : KindMap) (g : Graph) (q : Cy.Query) (st : Stmt) (ps : List (String × Val)) (hok : GraphOK2 km g)
-    (h : tr2 km q = some (st, ps)) (e : EErr) (he : Sql.eval (encode km g) st ps = .error e) : ∃ w, e = .unmodelled w := by
-  rcases tr2_some km q st ps h with h1 | ⟨s, _, hq, hst, hps⟩
+/-- `tr_sound_S2b` (the same, said for the hop stage alone and for BOTH join orders at once): the two statements the translator can emit for
+a hop query — a-node joined first / b-node joined first — are each a permutation of the Cypher result whenever they evaluate -/
+theorem tr_sound_S2b (km : KindMap) (g : Graph) (hok : GraphOK2 km g) (s : S2.Query) (flip : Bool) (st : Stmt)
+    (h : s.trWith km flip = some st) (t : Table) (ht : Sql.eval (encode km g) st [] = .ok t) :
+    ∃ r, Cy.eval .none g s.toCy = .ok r ∧ AgreeBag km g t r := by
+  obtain ⟨r, names, rows, hr, hsql, hperm⟩ := s2_sound km g hok s flip st h
+  rcases hsql with hsql | ⟨w, hsql⟩
+  · rw [hsql] at ht; cases ht; exact ⟨r, hr, hperm⟩
+  · rw [hsql] at ht; cases ht
+
+/-- the reference semantics is defined on every query of the stage (no hypothesis on the SQL side) -/
+theorem tr2_cypher_defined (flipOf : S2.Query → Bool) (km : KindMap) (g : Graph) (q : Cy.Query) (st : Stmt) (ps : List (String × Val))
+    (hok : GraphOK2 km g) (h : tr2F flipOf km q = some (st, ps)) : ∃ r, Cy.eval .none g q = .ok r := by
+  rcases tr2_some flipOf km q st ps h with h1 | ⟨s, _, hq, hst, hps⟩
+  · exact tr_cypher_defined km g q st ps hok.toGraphOK h1
+  · subst hq
+    obtain ⟨r, _, _, hr, _, _⟩ := s2_sound km g hok s (flipOf s) st hst
+    exact ⟨r, hr⟩
+
+/-- the emitted statement never ends in an SQL run-time / type / name error (only the model's own `unmodelled` for `->>` of array/object
+properties under a string comparison) -/
+theorem tr2_no_runtime_error (flipOf : S2.Query → Bool) (km : KindMap) (g : Graph) (q : Cy.Query) (st : Stmt) (ps : List (String × Val))
+    (hok : GraphOK2 km g) (h : tr2F flipOf km q = some (st, ps)) (e : EErr) (he : Sql.eval (encode km g) st ps = .error e) :
+    ∃ w, e = .unmodelled w := by
+  rcases tr2_some flipOf km q st ps h with h1 | ⟨s, _, hq, hst, hps⟩
   · exact tr_no_runtime_error km g q st ps hok.toGraphOK h1 e he
   · subst hps hq
-    obtain ⟨r, t', _, ht', _⟩ := s2_total km g hok s st hst
-    rw [ht'] at he; cases he
+    obtain ⟨r, names, rows, _, hsql, _⟩ := s2_sound km g hok s (flipOf s) st hst
+    rcases hsql with hsql | ⟨w, hsql⟩
+    · rw [hsql] at he; cases he
+    · rw [hsql] at he; cases he; exact ⟨w, rfl⟩
 
-/-- THE PROVED PART, both stages: the full statement's body (bag form) holds for `tr2` -/
+/-- THE PROVED PART, both stages: the full statement's body (bag form) -/
 def C01_bag_for (T : KindMap → Cy.Query → Option (Stmt × List (String × Val))) : Prop :=
   ∀ (km : KindMap) (g : Graph) (q : Cy.Query) (st : Stmt) (ps : List (String × Val)), GraphOK2 km g → T km q = some (st, ps) →
     (∀ t, Sql.eval (encode km g) st ps = .ok t → ∃ r, Cy.eval .none g q = .ok r ∧ AgreeBag km g t r) ∧
     (∀ m, Sql.eval (encode km g) st ps ≠ .error (.runtime m))
 
-theorem c01_partial_S2 : C01_bag_for tr2 := by
+/-- … holds for the model translator under EVERY join-order choice -/
+theorem c01_partial_S2 (flipOf : S2.Query → Bool) : C01_bag_for (tr2F flipOf) := by
   intro km g q st ps hok h
-  refine ⟨fun t ht => tr_sound_S2 km g q st ps hok h t ht, ?_⟩
+  refine ⟨fun t ht => tr_sound_S2 flipOf km g q st ps hok h t ht, ?_⟩
   intro m hm
-  obtain ⟨w, hw⟩ := tr2_no_runtime_error km g q st ps hok h _ hm
+  obtain ⟨w, hw⟩ := tr2_no_runtime_error flipOf km g q st ps hok h _ hm
   cases hw
 
 theorem ofCy2_sound (q : Cy.Query) (s : S2.Query) (h : ofCy2 q = some s) : s.toCy = q := Proofs.ofCy2_sound q s h
@@ -226,7 +253,7 @@ def exE1 : EdgeRec := { id := 10, start := 1, stop := 2, kind := "MemberOf", pro
 def exE2 : EdgeRec := { id := 11, start := 2, stop := 2, kind := "MemberOf", props := [] }
 def exG2 : Graph := { nodes := exG.nodes, edges := [exE1, exE2] }
 def exKm2 : KindMap := exKm ++ [("MemberOf", 3)]
-def exS2 : S2.Query := { a := "a", r := "r", b := "b", akinds := ["User"], rkinds := ["MemberOf"], bkinds := [], items := [.ent .a none, .prop .r "w" (some "w"), .idOf .b none] }
+def exS2 : S2.Query := { a := "a", r := "r", b := "b", akinds := ["User"], rkinds := ["MemberOf"], bkinds := [], wh := [(.b, .propEqStr "name" "x"), (.r, .idCmp .gt 3)], items := [.ent .a none, .prop .r "w" (some "w"), .idOf .b none] }
 
 theorem exG2_ok : GraphOK2 exKm2 exG2 := graphOK2b_sound exKm2 exG2 (by decide)
 example : (tr2 exKm2 exS2.toCy).isSome = true := by decide +kernel
